@@ -22,7 +22,7 @@ func main() {
 	}
 	dbreplay.Post = func() { t3.Stage(rep, args, map[string]bool{"C02": true}) }
 	dbreplay.Main(rep, args, "C02", []dbreplay.Stage{
-		{Name: "rb-3pg-3ops-exhaustive", Cfg: core.Pick(args, "MC_DBFile_rb.cfg", "MC_DBFile_rb.cfg"), Timeout: 10 * time.Minute, MaxKeep: core.Pick(args, 600, 0)},
+		{Name: "rb-3pg-3ops-exhaustive", Cfg: core.Pick(args, "MC_DBFile_rb.cfg", "MC_DBFile_rb_edge.cfg"), Timeout: 10 * time.Minute, MaxKeep: core.Pick(args, 600, 0)},
 		{Name: "rb-beyond-3pg-3ops-exhaustive", Cfg: "MC_DBFile_rb_beyond.cfg", Timeout: 10 * time.Minute, MaxKeep: core.Pick(args, 500, 0)},
 		{Name: "rb-drop-recreate-3pg-4ops-exhaustive", Cfg: "MC_DBFile_drop.cfg", Timeout: 10 * time.Minute, MaxKeep: core.Pick(args, 300, 0)},
 		{Name: "rb-block-edges-3pg-3ops", Cfg: "MC_DBFile_rb_L3.cfg", Timeout: 10 * time.Minute, MaxKeep: core.Pick(args, 300, 0), Layouts: []sim.Layout{sim.L3(512), sim.L2(512)}},
